@@ -80,8 +80,13 @@ func runC18(rcx *RunCtx) {
 	wga := p.Choose(2) == 1
 	rcx.Label = fmt.Sprintf("server kinds=%v conns=%d", kinds, nconn)
 	pipelined := rcx.Index%4 == 2
+	useSock := false
 	if pipelined {
-		rcx.Label = fmt.Sprintf("server pipelined conns=%d", nconn)
+		useSock = p.Choose(2) == 1
+		if useSock && nconn < 2 {
+			nconn = 2
+		}
+		rcx.Label = fmt.Sprintf("server pipelined conns=%d sock=%v", nconn, useSock)
 	}
 	var trace []string
 	rcx.Res = simrt.Run(cfg, rcx.Sched, func() {
@@ -106,7 +111,13 @@ func runC18(rcx *RunCtx) {
 		}
 		var conns []cm
 		for i := 0; i < nconn; i++ {
-			conns = append(conns, cm{w.Connect(), newSessModel()})
+			if useSock {
+				// real socket pairs: the server receives through vecnet's
+				// recvmsg path, whose buffers and vectors are shared too
+				conns = append(conns, cm{w.ConnectSock(), newSessModel()})
+			} else {
+				conns = append(conns, cm{w.Connect(), newSessModel()})
+			}
 		}
 		step := func(x cm, m rc.Message) {
 			mark := len(fs.Calls)
@@ -234,6 +245,11 @@ func runC18(rcx *RunCtx) {
 		}
 		w.Shutdown()
 		rcx.Findings = append(rcx.Findings, w.Findings...)
+		for _, x := range conns {
+			if x.c.Sock != nil {
+				x.c.Sock.Close()
+			}
+		}
 	})
 	rcx.Sample = map[string]interface{}{"receiver": "server", "message_kinds": kinds, "connections": nconn, "train_length": n, "pool_miss_pct": cfg.PoolMissPct, "history_head": trace}
 	finishRun(rcx)
@@ -245,7 +261,7 @@ func init() {
 		Desc: "no carry-over between messages through recycled message objects and buffers",
 		Run:  runC18,
 		Quick: 64000, Thorough: 4000000, QuickSecs: 60, ThorSecs: 1500,
-		Rule:  "trains of 6-36 messages of one or two types with shrinking/growing shapes (Twalk/Twalkgetattr name lists 16->9->1->0, Twrite payloads 4096->1->0, Tread/Treaddir counts long->short->0, Tsymlink/Tmkdir/Tlock/Trenameat strings long->empty, Tsetattr/Tgetattr masks, Txattrwalk names) (one in six cut short inside its body, which must not reach the backend) on one connection and interleaved over 1-3 connections of one server process (process-wide message cache and buffer pools, emptied at run start, pool misses forced 0/20/50/90%); a quarter of the runs instead sends batches of 2-5 requests (reads of different offsets and lengths through two fids, writes, listings, getattr, walks) that are in flight together, each judged against the calls the backend received on its behalf; client side: reply trains from a fake server through the client's recycled response objects, every result handed to a caller re-read after all later replies. Oracle: backend arguments (deep-copied at the call) equal the request's own fields as encoded by the independent codec; replies are what the C04 model and the call log prescribe (Rread = exactly the bytes the backend produced, Rreaddir = the whole entries that fit).",
+		Rule:  "trains of 6-36 messages of one or two types with shrinking/growing shapes (Twalk/Twalkgetattr name lists 16->9->1->0, Twrite payloads 4096->1->0, Tread/Treaddir counts long->short->0, Tsymlink/Tmkdir/Tlock/Trenameat strings long->empty, Tsetattr/Tgetattr masks, Txattrwalk names) (one in six cut short inside its body, which must not reach the backend) on one connection and interleaved over 1-3 connections of one server process (process-wide message cache and buffer pools, emptied at run start, pool misses forced 0/20/50/90%); a quarter of the runs instead sends (half of them over real socket pairs, i.e. through vecnet's recvmsg path) batches of 2-5 requests (reads of different offsets and lengths through two fids, writes, listings, getattr, walks) that are in flight together, each judged against the calls the backend received on its behalf; client side: reply trains from a fake server through the client's recycled response objects, every result handed to a caller re-read after all later replies. Oracle: backend arguments (deep-copied at the call) equal the request's own fields as encoded by the independent codec; replies are what the C04 model and the call log prescribe (Rread = exactly the bytes the backend produced, Rreaddir = the whole entries that fit).",
 		Real:   []string{"p9 message registry cache", "p9 buffer pools", "p9 decode/encode", "p9.Server"},
 		Stub:   []string{"transport (simnet pipes)", "backend tree (simfs)", "raw 9P peer / fake server (refcodec)"},
 		Owns:   []string{"C04"},
